@@ -76,6 +76,7 @@ type ProjOpt struct {
 	Enum bool // log enumeration answers
 	Text bool // log Newick text (parsed by the reference reader)
 	Raw  bool // keep the raw text
+	Rank bool // log the harness' own sorted tip-name ranking
 }
 
 const projCap = 4000
@@ -160,6 +161,9 @@ func project(t *tree.Tree, opt ProjOpt) (p *PTree) {
 			Len: toUnits(e.Length()), Sup: toUnits(e.Support()), Pv: toUnits(e.PValue()), Cm: strs(e.Comments())})
 	}
 	p.Sane = p.sane()
+	if opt.Rank && !opt.Idx {
+		p.Rank = p.tipRank()
+	}
 	if opt.Idx {
 		p.Rank = p.tipRank()
 		rk := map[string]int{}
